@@ -465,7 +465,15 @@ def run(ctx):
         "after an identical warm-up and the same start values the same history returns the same values. "
         "Awkward-text stream (deterministic): every text of the content pool as a constant, under &, =, LEN and as a "
         "formula text literal, in one workbook per text x yml/json/pkl, every cell evaluated on the original and on "
-        "the loaded model")
+        "the loaded model. New-nodes stream (implementation against implementation): a complete block of constants, "
+        "an index cell and formulas whose evaluation needs a node that exists only at run time (range intersection "
+        "of two blocks / with whole rows / a whole column, whole-formula OFFSET, INDIRECT, INDEX(OFFSET())), saved "
+        "evaluated or - after a write - unevaluated x yml/json/pkl (pkl also in a fresh process): post-load evaluate "
+        "of the formulas, of sub-ranges and 2-D parts of saved ranges, of super-ranges and cells in the blank area "
+        "around the block, writes to the block, the index cell and a blank cell; every answer or exception class "
+        "equal. Big-range stream: blocks of 60-300 constants (1-4 columns), consumers of the whole block and of "
+        "parts of it that are themselves members of another referenced range x yml/json/pkl/pkl in a fresh process: "
+        "post-load writes to members (the history begins with a write in half of the cases) and reads of everything")
     nwb = ctx.n(70, 800)
     nproc = 0
     batch = []          # correspondence cases (model = coq/Model/Persist.v)
@@ -744,7 +752,7 @@ def run(ctx):
     inexact_stream(ctx, ExcelCompiler, numpy_constants=True)
     digits17_stream(ctx, ExcelCompiler)
     numpy_results_stream(ctx, ExcelCompiler)
-    for stream in (iterative_settings_stream, awkward_text_stream):
+    for stream in (iterative_settings_stream, awkward_text_stream, new_nodes_stream, stale_operand_cases, big_range_stream):
         try:
             stream(ctx, ExcelCompiler)
         except Exception:      # noqa: BLE001
@@ -1595,3 +1603,333 @@ def awkward_text_stream(ctx, ExcelCompiler):
                 for f in os.listdir(ctx.work):
                     if f.startswith(f'awk{ti}_m'):
                         os.remove(os.path.join(ctx.work, f))
+
+
+# ------------------------------------------------------------------ post-load histories that BUILD new nodes
+def _save_load(ctx, ExcelCompiler, orig, stem, ext):
+    """to_file + from_file through one format; the files are removed (a stale .yml/.pkl pair of the same stem would
+    make to_file skip the pickle)"""
+    try:
+        orig.to_file(stem, file_types=(ext,))
+        return ExcelCompiler.from_file(stem + '.' + ext)
+    finally:
+        base = os.path.basename(stem)
+        for f in os.listdir(ctx.work):
+            if f.startswith(base + '.'):
+                os.remove(os.path.join(ctx.work, f))
+
+
+def _fresh_process(ctx, ExcelCompiler, orig, stem, ext, ops):
+    """the history run by load_driver.py in a new interpreter on the saved file: (trace | None, error text)"""
+    from harness.common import jsonable
+    spec, outp = stem + '_spec.json', stem + '_out.json'
+    try:
+        orig.to_file(stem, file_types=(ext,))
+        json.dump(dict(file=stem + '.' + ext, ops=jsonable(ops)), open(spec, 'w'))
+        p = subprocess.run([PY, os.path.join(ctx.work, 'load_driver.py'), spec, outp], env=impl_env(),
+                           capture_output=True, text=True, timeout=120)
+        if p.returncode != 0:
+            return None, p.stderr[-300:]
+        return json.load(open(outp))['trace'], ''
+    finally:
+        base = os.path.basename(stem)
+        for f in os.listdir(ctx.work):
+            if f.startswith(base + '.') or f.startswith(base + '_spec') or f.startswith(base + '_out'):
+                os.remove(os.path.join(ctx.work, f))
+
+
+def _first_diff(ctx, case, ops, got, want, what):
+    from harness.common import jsonable
+    g, w = jsonable(got), jsonable(want)
+    if g == w:
+        return True
+    first = next((i for i, (a, b) in enumerate(zip(g, w)) if a != b), min(len(g), len(w)))
+    ctx.violation(dict(case, history=ops[:first + 1]), what,
+                  impl=g[first] if first < len(g) else None, expected=w[first] if first < len(w) else None)
+    return False
+
+
+def new_nodes_stream(ctx, ExcelCompiler):
+    """Implementation against implementation.  A block of constants A1:B(n) or A1:C(n) (complete: every cell of it is
+    in the saved model), an index cell E1, and formula cells in column G below the block whose evaluation needs a
+    node that exists only at RUN TIME: the range intersection operator (bounded x bounded, x whole rows, x a whole
+    column: `=SUM(A1:A4 A2:B3)`, `=MAX(A1:B6 3:4)`, `=A1:A6 3:3`), whole-formula OFFSET / INDIRECT and
+    INDEX(OFFSET(...)) steered by E1, next to ordinary range consumers and cells chained on them.  Before the save
+    everything is evaluated; in half of the cases a constant is then written WITHOUT evaluating anything again (the
+    formula cells below it are saved unevaluated).  Post-load history on the original and on the model loaded from
+    yml, json and pkl (pkl also in a fresh process, sampled): evaluate of the formula cells, of SUB-ranges of saved
+    ranges (`S!A3:A4`, 2-D parts of the block), of SUPER-ranges reaching into the blank cells around the block, of
+    blank cells that were never part of the model, writes to block cells, to E1 (the computed references move) and
+    to a blank cell outside the saved model.  Every answer (value or exception class) equal."""
+    import openpyxl
+    rng = ctx.rng
+    S = wbgen.SHEET
+    nproc = 0
+    for k in range(ctx.n(18, 200)):
+        n = rng.randrange(4, 8)
+        width = rng.choice([2, 2, 3])
+        cols = 'ABC'[:width]
+        last = cols[-1]
+        block = {f'{c}{r}': rng.choice([1, 2, 3, 5, 7, 10, 12, 100, -4, 20, 0.5]) for c in cols for r in range(1, n + 1)}
+        e1 = rng.randrange(1, n)
+
+        def two_rows():
+            r1 = rng.randrange(1, n)
+            return r1, rng.randrange(r1 + 1, n + 1)
+
+        operands = []                   # the operand ranges of every intersection of the workbook
+
+        def intersect():
+            """two ranges of the block with a common part, the common part is not one of the two"""
+            r1, r2 = two_rows()
+            r3 = rng.randrange(1, r2 + 1)
+            r4 = rng.randrange(max(r1, r3), n + 1)
+            c = rng.choice(cols)
+            return both(f'{c}{r1}:{c}{r2}', f'A{r3}:{last}{r4}')
+
+        def both(u, v):
+            operands.extend(x for x in (f'{S}!{u}', f'{S}!{v}') if x not in operands)
+            return f'{u} {v}'
+        forms = []
+        for _ in range(rng.randrange(3, 6)):
+            r1, r2 = two_rows()
+            c = rng.choice(cols)
+            tc = rng.randrange(1, width)            # computed references point into the columns right of A
+            agg = rng.choice(['SUM', 'SUM', 'MAX', 'MIN', 'COUNT', 'AVERAGE'])
+            forms.append(rng.choice([
+                lambda: f'={agg}({intersect()})',
+                lambda: f'={agg}({intersect()})',
+                lambda: f'={agg}({both(f"A1:{last}{n}", f"{r1}:{r2}")})',
+                lambda: f'={agg}({both(f"A{r1}:{last}{r2}", f"{c}:{c}")})',
+                lambda: f'={both(f"{c}1:{c}{n}", f"{r1}:{r1}")}',
+                lambda: f'=OFFSET(A1,E1,{tc})',
+                lambda: f'=INDIRECT("{cols[tc]}"&E1)',
+                lambda: f'=INDEX(OFFSET(A1,{rng.randrange(0, 2)},1,{n - 1},{width - 1}),E1,{rng.randrange(1, width)})',
+                lambda: f'=IF(E1>{rng.randrange(1, n)},{agg}({intersect()}),{c}{r1})',
+                lambda: f'={agg}({c}{r1}:{c}{r2})',
+            ])())
+        if not operands:
+            forms[0] = f'=SUM({intersect()})'
+        g0 = n + 2                      # formulas live below the block: no whole row of the block contains its reader
+        cells = dict(block)
+        cells['E1'] = e1
+        for j, t in enumerate(forms):
+            cells[f'G{g0 + j}'] = t
+        for j in range(rng.randrange(1, 3)):         # cells chained on the run-time cells
+            a, b = rng.randrange(len(forms)), rng.randrange(len(forms))
+            cells[f'H{g0 + j}'] = rng.choice([f'=G{g0 + a}*2', f'=G{g0 + a}+G{g0 + b}', f'=SUM(G{g0}:G{g0 + len(forms) - 1})'])
+        formulas = [f'{S}!{a}' for a, v in cells.items() if isinstance(v, str)]
+        desc = [(f'{S}!{a}', None, v) if isinstance(v, str) else (f'{S}!{a}', v, None) for a, v in cells.items()]
+        whole = f'{S}!A1:{last}{n}'
+        unevaluated = [f'{S}!A{rng.randrange(1, n + 1)}', rng.choice([3, 8, 11, 40])] if k % 2 else None
+
+        def build():
+            owb = openpyxl.Workbook()
+            ws = owb.active
+            ws.title = S
+            for a, v in cells.items():
+                ws[a] = v
+            return owb
+
+        def original():
+            comp = ExcelCompiler(excel=build())
+            quiet_evaluate(comp, whole)
+            for a in formulas:
+                quiet_evaluate(comp, a)
+            if unevaluated:
+                comp.set_value(*unevaluated)
+                for a in operands:
+                    quiet_evaluate(comp, a)
+            return comp
+        blank_col = 'ABCD'[width]
+        ops = []
+        for _ in range(rng.randrange(8, 13)):
+            c = rng.random()
+            r1, r2 = two_rows()
+            col = rng.choice(cols)
+            if c < 0.3:
+                ops.append(['eval', rng.choice(formulas)])
+            elif c < 0.45:
+                ops.append(['eval', f'{S}!{col}{r1}:{col}{r2}'])                       # part of a saved column
+            elif c < 0.55:
+                ops.append(['eval', f'{S}!A{r1}:{last}{r2}'])                         # 2-D part of the block
+            elif c < 0.65:
+                ops.append(['eval', f'{S}!A{r1}:{blank_col}{n + 1}'])                  # reaches into blank cells
+            elif c < 0.7:
+                ops.append(['eval', f'{S}!{blank_col}{rng.randrange(1, n + 2)}'])       # a blank cell, never in the model
+            elif c < 0.85:
+                # writes go to column A (no computed reference points there: C03-reference-target-stale) and are
+                # followed by a look at every operand range of an intersection (C03-intersection-operand-stale)
+                ops.append(['set', f'{S}!A{rng.randrange(1, n + 1)}', rng.choice([1, 4, 6, 9, 30, 2.5])])
+                ops += [['eval', a] for a in operands]
+            elif c < 0.95:
+                ops.append(['set', f'{S}!E1', rng.randrange(1, n)])
+            else:
+                ops.append(['set', f'{S}!{blank_col}{rng.randrange(1, n + 1)}', rng.choice([5, 'x'])])
+        ops += [['eval', a] for a in formulas] + [['eval', f'{S}!A2:A3'], ['eval', f'{S}!A1:{blank_col}{n + 1}']]
+        for ext in ('yml', 'json', 'pkl'):
+            places = ['same']
+            if ext == 'pkl' and nproc < ctx.n(4, 30):
+                nproc += 1
+                places.append('process')
+            for place in places:
+                case = dict(call='persist-new-nodes', workbook=desc, args=[ext, 'plain', place])
+                if unevaluated:
+                    case['written_before_save'] = unevaluated
+                ctx.count(('new-nodes', k, ext, place), kind=f'new-nodes:{ext}:{place}',
+                          sample=case if ext == 'pkl' else None)
+                stem = os.path.join(ctx.work, f'nn{k}_{ext}_m')
+                try:
+                    orig = original()
+                    if place == 'same':
+                        got = run_ops(_save_load(ctx, ExcelCompiler, orig, stem, ext), ops)
+                    else:
+                        got, err = _fresh_process(ctx, ExcelCompiler, orig, stem, ext, ops)
+                        if got is None:
+                            ctx.violation(dict(case, leg='load'), ("from_file in a fresh process fails: " + err)[:400])
+                            continue
+                except Exception as exc:      # noqa: BLE001
+                    ctx.violation(dict(case, leg='save/load'), f"build/save/load raises {type(exc).__name__}: {exc}"[:200])
+                    continue
+                _first_diff(ctx, case, ops, got, run_ops(orig, ops),
+                            "the loaded model answers a history that builds new nodes differently from the original")
+
+
+# ------------------------------------------------------------------ ranges of more than 100 cells
+def big_range_stream(ctx, ExcelCompiler):
+    """Implementation against implementation.  A block of 60-300 constants (one column, or 2-4 columns; most blocks
+    have more than 100 cells, some stay just below), consumers F1.. = SUM/MAX/MIN/COUNT/AVERAGE of the whole block
+    and of parts of it (a part of more than 100 cells too when the block allows), a cell H1 that reads the
+    consumers THROUGH A RANGE (=SUM(F1:F3): the consumers are members of another referenced range, so they are
+    computed while the file is loaded) and H2 that reads one directly.  Everything is evaluated, saved as yml, json
+    and pkl, loaded in the same process (pkl also in a fresh process); the post-load history writes members of the
+    big ranges and reads H1, H2, the consumers and now and then the block itself - in half of the cases it BEGINS
+    with a write (nothing evaluated between load and first write).  Every answer equal to the original's."""
+    import openpyxl
+    rng = ctx.rng
+    S = wbgen.SHEET
+    for k in range(ctx.n(6, 80)):
+        width = rng.choice([1, 1, 2, 3, 4]) if k % 4 else 1
+        cells_wanted = rng.randrange(101, 301 if ctx.tier == 'thorough' else 241) if k % 4 != 3 else rng.randrange(60, 101)
+        height = max(2, -(-cells_wanted // width))
+        cols = 'ABCD'[:width]
+        last = cols[-1]
+        block = {f'{c}{r}': rng.randrange(1, 50) for c in cols for r in range(1, height + 1)}
+        consumers = [f'={rng.choice(["SUM", "SUM", "MAX", "AVERAGE"])}(A1:{last}{height})']
+        for _ in range(rng.randrange(1, 4)):
+            r1 = rng.randrange(1, max(2, height // 3))
+            r2 = rng.randrange(max(r1 + 1, height // 2), height + 1)
+            c1 = rng.choice(cols)
+            c2 = rng.choice([c for c in cols if c >= c1])
+            consumers.append(f'={rng.choice(["SUM", "SUM", "MAX", "MIN", "COUNT", "AVERAGE"])}({c1}{r1}:{c2}{r2})')
+        m = len(consumers)
+        cells = dict(block)
+        for j, t in enumerate(consumers, 1):
+            cells[f'F{j}'] = t
+        cells['H1'] = f'={rng.choice(["SUM", "MAX", "SUM"])}(F1:F{m})'
+        cells['H2'] = f'=F{rng.randrange(1, m + 1)}*2+F1'
+        outputs = [f'{S}!H1', f'{S}!H2'] + [f'{S}!F{j}' for j in range(1, m + 1)]
+        desc = dict(block=f'{S}!A1:{last}{height}', cells=height * width,
+                    formulas={a: v for a, v in cells.items() if isinstance(v, str)})
+
+        def original():
+            owb = openpyxl.Workbook()
+            ws = owb.active
+            ws.title = S
+            for a, v in cells.items():
+                ws[a] = v
+            comp = ExcelCompiler(excel=owb)
+            for a in outputs:
+                comp.evaluate(a)
+            return comp
+        ops = [] if k % 2 else [['eval', rng.choice(outputs)]]
+        for step in range(rng.randrange(3, 6)):
+            for _ in range(rng.randrange(1, 3)):
+                ops.append(['set', f'{S}!{rng.choice(cols)}{rng.randrange(1, height + 1)}', rng.randrange(100, 2000)])
+            ops.append(['eval', f'{S}!H1'])
+            c = rng.random()
+            if c < 0.5:
+                ops.append(['eval', rng.choice(outputs)])
+            elif c < 0.65:
+                ops.append(['eval', f'{S}!A1:{last}{height}'])
+            elif c < 0.8:
+                r1 = rng.randrange(1, height)
+                ops.append(['eval', f'{S}!A{r1}:A{min(height, r1 + 3)}'])
+        ops += [['eval', a] for a in outputs]
+        for ext, place in (('yml', 'same'), ('json', 'same'), ('pkl', 'same'), ('pkl', 'process')):
+            case = dict(call='persist-big-range', workbook=desc, args=[ext, 'plain', place])
+            ctx.count(('big-range', k, ext, place), kind=f'big-range:{ext}:{place}:' +
+                      ('more than 100 cells' if height * width > 100 else 'up to 100 cells'),
+                      sample=case if ext == 'pkl' else None)
+            stem = os.path.join(ctx.work, f'br{k}_{ext}_m')
+            try:
+                orig = original()
+                if place == 'same':
+                    got = run_ops(_save_load(ctx, ExcelCompiler, orig, stem, ext), ops)
+                else:
+                    got, err = _fresh_process(ctx, ExcelCompiler, orig, stem, ext, ops)
+                    if got is None:
+                        ctx.violation(dict(case, leg='load'), ("from_file in a fresh process fails: " + err)[:400])
+                        continue
+            except Exception as exc:      # noqa: BLE001
+                ctx.violation(dict(case, leg='save/load'), f"build/save/load raises {type(exc).__name__}: {exc}"[:200])
+                continue
+            _first_diff(ctx, case, ops, got, run_ops(orig, ops),
+                        "the loaded model answers a history of writes to members of a big range differently from the original")
+
+
+# ------------------------------------------------------------------ two defects of the unchanged tree the stream above steps around
+@known_predicate('C03-intersection-operand-stale')
+def _intersection_operand_stale(case):
+    """the deterministic cases of stale_operand_cases with an intersection formula (nothing else is matched)"""
+    return case.get('call') == 'persist-intersection-operand-stale'
+
+
+@known_predicate('C03-reference-target-stale')
+def _reference_target_stale(case):
+    """the deterministic cases of stale_operand_cases with a whole-formula OFFSET / INDIRECT (nothing else)"""
+    return case.get('call') == 'persist-reference-target-stale'
+
+
+def stale_operand_cases(ctx, ExcelCompiler):
+    """Deterministic.  Two ways in which set_value is not propagated on the unchanged tree, each of which makes the
+    original and the loaded model answer the same history differently (what is cached differs between them):
+    (1) the operand ranges of an intersection are read through _REF_ only, so after a first write they stay None and
+    _reset stops there: the next write to a member does not reach the formula; (2) a whole-formula OFFSET / INDIRECT
+    has no edge from the cell it points to.  new_nodes_stream keeps its histories clear of both (writes to column A
+    are followed by a look at every operand range; computed references point right of column A); these cases run
+    into them on purpose, in every format."""
+    import openpyxl
+    S = wbgen.SHEET
+    shapes = [
+        ('persist-intersection-operand-stale', '=SUM(A1:A4 A2:B3)', [f'{S}!A2', 20],
+         [['eval', f'{S}!D1'], ['set', f'{S}!A3', 30], ['eval', f'{S}!D1']]),
+        ('persist-reference-target-stale', '=OFFSET(A1,E1,1)', None, [['set', f'{S}!B3', 7], ['eval', f'{S}!D1']]),
+        ('persist-reference-target-stale', '=INDIRECT("B"&E1)', None, [['set', f'{S}!B2', 7], ['eval', f'{S}!D1']]),
+    ]
+    for call, text, before, ops in shapes:
+        cells = {f'{c}{r}': r * (1 if c == 'A' else 100) for c in 'AB' for r in range(1, 5)}
+        cells.update(E1=2, D1=text)
+        desc = [(f'{S}!{a}', None, v) if isinstance(v, str) else (f'{S}!{a}', v, None) for a, v in cells.items()]
+        for ext in ('yml', 'json', 'pkl'):
+            case = dict(call=call, workbook=desc, args=[ext, 'plain', 'same'])
+            if before:
+                case['written_before_save'] = before
+            ctx.count((call, text, ext), kind=f'{call}:{ext}')
+            owb = openpyxl.Workbook()
+            ws = owb.active
+            ws.title = S
+            for a, v in cells.items():
+                ws[a] = v
+            try:
+                orig = ExcelCompiler(excel=owb)
+                orig.evaluate(f'{S}!A1:B4')
+                orig.evaluate(f'{S}!D1')
+                if before:
+                    orig.set_value(*before)
+                loaded = _save_load(ctx, ExcelCompiler, orig, os.path.join(ctx.work, f'stale_{ext}_m'), ext)
+            except Exception as exc:      # noqa: BLE001
+                ctx.violation(dict(case, leg='save/load'), f"build/save/load raises {type(exc).__name__}: {exc}"[:200])
+                continue
+            _first_diff(ctx, case, ops, run_ops(loaded, ops), run_ops(orig, ops),
+                        "the loaded model answers a history differently from the original")
